@@ -5,7 +5,8 @@
      _recordWriteVec<T>     ASerializable.hpp:141   ["# t\n"] "v1 v2 ... vn \n"
      _commentWrite          ASerializable.cpp:143   "" => "\n"      t => "# t\n"
      _tableWrite/_tableRead ASerializable.cpp:155/167   = _recordWriteVec / _recordReadVec on the first ntab values
-     _fileOpenWrite/Read    ASerializable.cpp:94/114    class tag line "Name\n" / is >> type
+                                                    (a failed _tableRead makes the reader fail)
+     _fileOpenWrite/Read    ASerializable.cpp:94/114    class tag line "Name\n" / the whole first line, trimmed
      _recordRead<T>         ASerializable.hpp:167   operator>> word by word; a word starting with '#' eats the rest of
                                                     the line (gslSafeGetline); "NA" => getNA<T>(); at end of file the
                                                     value is T() and the call SUCCEEDS
@@ -300,12 +301,21 @@ Definition rd_vdbl := rd_vec parse_dbl.
 Definition rd_vint := rd_vec parse_int.
 Definition rd_vstr := rd_vec parse_str.
 
-(* _fileOpenRead: is >> type; type must be the class name *)
+(* _fileOpenRead: gslSafeGetline(is, type); type = trim(type); type must be the class name.  The very first line is
+   taken (a leading blank line is not skipped); on the lexical view the words of that line must be those of the name
+   (which may hold blanks: "Fracture Environ") *)
+Fixpoint wlist_eqb (a b : list word) : bool :=
+  match a, b with
+  | [], [] => true
+  | x :: a', y :: b' => weqb x y && wlist_eqb a' b'
+  | _, _ => false
+  end.
+Definition tag_words (name : word) : list word :=
+  match segs name with l :: _ => filter nonempty l | [] => [] end.
 Definition rd_tag (name : word) : reader unit :=
-  fun s => let (ow, s') := rword s in
-           match ow with
-           | Some w => if weqb w name then Some (tt, s') else None
-           | None => None
+  fun s => match s with
+           | l :: ls => if wlist_eqb l (tag_words name) then Some (tt, ls) else None
+           | [] => None
            end.
 
 (* loops *)
